@@ -1,0 +1,149 @@
+//go:build verif
+
+// Contracts for package ons (data): C20 domain names — the domain store and the Domain record.
+// Comment-only file, read by /verif/govc.
+
+package ons
+
+// ---------------------------------------------------------------- vocabulary
+//
+// domHas(ds)[n]   : the store holds a record under name n (one record per name: the store is a map keyed by name)
+// dom(ds)[n]      : that record (the SalePrice pointer of the ghost record only tells nil / non-nil)
+// domPrice(ds)[n] : the value of the record's SalePrice when it is non-nil
+// nameIsSub(n), nameValid(n), parentOf(n) : what the regular expressions / string splitting of types.go compute
+// subOf(n, p)     : n is one of the names IterateSubDomain(p, ..) ranges over (key prefix "." + p reversed)
+//@ model domHas(*DomainStore) array[string]bool
+//@ model dom(*DomainStore) array[string]Domain
+//@ model domPrice(*DomainStore) array[string]int
+// domOK(ds): store invariant — a record that is on sale carries an asking price, and that price is not negative
+// (established by DOMAIN_SELL, which is the only transaction that sets OnSaleFlag; preserved by every ons handler)
+//@ ghost func domOK(ds *DomainStore) bool = forall n string :: domHas(ds)[n] && dom(ds)[n].OnSaleFlag ==> dom(ds)[n].SalePrice != nil && domPrice(ds)[n] >= 0
+//@ ghost func nameIsSub(n string) bool
+//@ ghost func nameValid(n string) bool
+//@ ghost func parentOf(n string) string
+//@ ghost func subOf(n string, p string) bool
+
+// ---------------------------------------------------------------- names (regexp / strings: pure functions of the name) — assumed
+
+// rev: string reversal (rune loop in reverse()); it has an inverse (itself), hence is injective
+//@ ghost func rev(s string) string
+//@ ghost func unrev(s string) string
+//@ assume func reverse
+//@   modifies nothing
+//@   ensures result == rev(s)
+
+//@ assume func (Name).IsSub
+//@   modifies nothing
+//@   ensures result == nameIsSub(n)
+
+//@ assume func (Name).IsValid
+//@   modifies nothing
+//@   ensures result == nameValid(n)
+
+//@ assume func (Name).GetParentName
+//@   modifies nothing
+//@   ensures (err == nil) == nameIsSub(n)
+//@   ensures err == nil ==> result0 == parentOf(n) && !nameIsSub(parentOf(n))
+
+// ---------------------------------------------------------------- the Domain record
+
+//@ func (*Domain).ResetAfterSale
+//@   safety C18
+//@   requires d != nil
+//@   modifies *d
+//@   ensures d.Owner == buyer && d.Beneficiary == account && d.SalePrice == nil && !d.OnSaleFlag && d.ActiveFlag && d.URI == "" && d.LastUpdateHeight == currentHeight   // C20.purchase-reset
+//@   ensures d.Name == old(d.Name) && d.CreationHeight == old(d.CreationHeight)                                                                                          // C20.purchase-reset
+//@   ensures d.ExpireHeight == wrap64((old(d.ExpireHeight) > currentHeight ? old(d.ExpireHeight) : currentHeight) + nBlocks)                                            // C20.expiry-int64
+// the property's clause (mathematical sum) is false when the int64 addition wraps: ExpireHeight = 2^63-1, nBlocks = 1 gives -2^63
+//@   claims d.ExpireHeight == (old(d.ExpireHeight) > currentHeight ? old(d.ExpireHeight) : currentHeight) + nBlocks                                                      // C20.expiry
+
+// ---------------------------------------------------------------- the typed view of the State prefix (assumed, like balance.get/set)
+//
+// Rests on C09's State contracts (a key written is read back, a deleted key reads as absent), on T-SER
+// round-tripping of Domain through domainData, and on name -> key (prefix + reversed name) being injective.
+
+//@ assume func (*DomainStore).Get
+//@   requires ds != nil
+//@   modifies nothing
+//@   ensures err == nil ==> domHas(ds)[name] && result0 != nil && fresh(result0)
+//@   ensures err != nil ==> result0 == nil
+//@   ensures err == nil ==> result0.Owner == dom(ds)[name].Owner && result0.Beneficiary == dom(ds)[name].Beneficiary && result0.Name == dom(ds)[name].Name && result0.CreationHeight == dom(ds)[name].CreationHeight && result0.LastUpdateHeight == dom(ds)[name].LastUpdateHeight && result0.ExpireHeight == dom(ds)[name].ExpireHeight && result0.ActiveFlag == dom(ds)[name].ActiveFlag && result0.OnSaleFlag == dom(ds)[name].OnSaleFlag && result0.URI == dom(ds)[name].URI
+//@   ensures err == nil ==> result0.Name == name                       // every record is written by Set, which files it under its own Name
+//@   ensures err == nil ==> (result0.SalePrice == nil) == (dom(ds)[name].SalePrice == nil)
+//@   ensures err == nil && result0.SalePrice != nil ==> fresh(result0.SalePrice) && big(result0.SalePrice) == domPrice(ds)[name]
+
+// Exists: only the direction C09 proves for State.Exists (a present key is reported); the converse is the
+// tombstone leak (C09.deleted-absent is a claims clause there): a name deleted earlier in the same block is still reported.
+//@ assume func (*DomainStore).Exists
+//@   requires ds != nil
+//@   modifies nothing
+//@   ensures domHas(ds)[name] ==> result
+
+//@ assume func (*DomainStore).Set
+//@   requires ds != nil && d != nil
+//@   modifies domHas(ds)[d.Name], dom(ds)[d.Name], domPrice(ds)[d.Name], vHas(ds.State), vVal(ds.State)
+//@   ensures err == nil ==> domHas(ds)[d.Name] && dom(ds)[d.Name] == *d && (d.SalePrice != nil ==> domPrice(ds)[d.Name] == big(d.SalePrice))
+//@   ensures err != nil ==> domHas(ds)[d.Name] == old(domHas(ds))[d.Name] && dom(ds)[d.Name] == old(dom(ds))[d.Name] && domPrice(ds)[d.Name] == old(domPrice(ds))[d.Name]
+
+// presence of a record is presence of its key in the State view (used only by the two functions that delete keys directly)
+//@ repr domHas(self *DomainStore)[n string] = vHas(self.State)[str(self.prefix) + rev(n)]
+
+// name -> key is injective: concatenation can be cancelled on the left, reversal is an involution
+//@ axiom forall p string, a string, b string :: p + a == p + b ==> a == b                            // C20.key-injective
+//@ axiom forall s string :: unrev(rev(s)) == s                                                    // C20.key-injective
+
+//@ func (*DomainStore).DeleteASubdomain
+//@   expands *DomainStore
+//@   requires ds != nil && wfState(ds.State) && sessOpen(ds.State)
+//@   modifies domHas(ds), vHas(ds.State), vVal(ds.State), bHas(ds.State), bVal(ds.State), kvmap(ds.State.cache)[str(ds.prefix) + rev(subdomainName)], kvmap(ds.State.txSession)[str(ds.prefix) + rev(subdomainName)], exhausted(ds.State.cache), exhausted(ds.State.txSession), rep(ds.State.cache), rep(ds.State.txSession)
+//@   ensures err == nil ==> old(domHas(ds))[subdomainName] && nameIsSub(old(dom(ds))[subdomainName].Name) && !domHas(ds)[subdomainName]   // C20.delete-sub
+//@   ensures err != nil ==> domHas(ds)[subdomainName] == old(domHas(ds))[subdomainName]                           // C20.delete-sub
+//@   ensures forall m string :: m != subdomainName ==> domHas(ds)[m] == old(domHas(ds))[m]                        // C20.delete-frame
+//@   ensures dom(ds) == old(dom(ds)) && domPrice(ds) == old(domPrice(ds))                                         // C20.delete-frame
+//@   ensures wfState(ds.State) && sessOpen(ds.State)                                                               // C09.wf
+
+// IterateSubDomain: assumed iterator (State.IterateRange over the key range "<prefix><reversed "."+parent>..." has no
+// contract in package storage). Every yield is a sub-name of parentName that is present, with a fresh copy of its record.
+// Nothing is assumed about completeness: the real enumeration walks only the keys of the committed tree
+// (storage/state.go IterateRange: "we can't get the key for anything that's only in the cache").
+//@ ghost func subIterCount(ds *DomainStore, p string) int
+//@ assume func (*DomainStore).IterateSubDomain
+//@   iterator
+//@   requires ds != nil
+//@   modifies nothing
+//@   count subIterCount(ds, parentName)
+//@   yields subOf(y0, parentName) && y0 != parentName && domHas(ds)[y0] && y1 != nil
+//@   yields y1.Owner == dom(ds)[y0].Owner && y1.Beneficiary == dom(ds)[y0].Beneficiary && y1.Name == y0 && dom(ds)[y0].Name == y0 && y1.CreationHeight == dom(ds)[y0].CreationHeight && y1.LastUpdateHeight == dom(ds)[y0].LastUpdateHeight && y1.ExpireHeight == dom(ds)[y0].ExpireHeight && y1.ActiveFlag == dom(ds)[y0].ActiveFlag && y1.OnSaleFlag == dom(ds)[y0].OnSaleFlag && y1.URI == dom(ds)[y0].URI
+//@   yields (y1.SalePrice == nil) == (dom(ds)[y0].SalePrice == nil) && (y1.SalePrice != nil ==> big(y1.SalePrice) == domPrice(ds)[y0])
+
+//@ func (*DomainStore).DeleteAllSubdomains
+//@   expands *DomainStore
+//@   requires ds != nil && wfState(ds.State) && sessOpen(ds.State)
+//@   modifies domHas(ds), vHas(ds.State), vVal(ds.State), bHas(ds.State), bVal(ds.State), mapof(kvmap(ds.State.cache)), mapof(kvmap(ds.State.txSession)), exhausted(ds.State.cache), exhausted(ds.State.txSession), rep(ds.State.cache), rep(ds.State.txSession)
+//@   invariant iter1: ds == ds0 && wfState(ds0.State) && sessOpen(ds0.State) && ds0.State == old(ds0.State) && ds0.prefix == old(ds0.prefix)
+//@   invariant iter1: forall m string :: !subOf(m, name0) ==> domHas(ds0)[m] == old(domHas(ds0))[m]               // C20.delete-frame
+//@   invariant iter1: forall m string :: domHas(ds0)[m] ==> old(domHas(ds0))[m]                                   // C20.delete-frame
+//@   invariant iter1: unbox(ds0.State.txSession, "*storage.cacheSession").store == old(unbox(ds0.State.txSession, "*storage.cacheSession").store) && unbox(ds0.State.txSession, "*storage.cacheSession").done == old(unbox(ds0.State.txSession, "*storage.cacheSession").done)   // frame-help
+//@   invariant iter1: unbox(ds0.State.cache, "*storage.cacheSession").store == old(unbox(ds0.State.cache, "*storage.cacheSession").store) && unbox(ds0.State.cache, "*storage.cacheSession").done == old(unbox(ds0.State.cache, "*storage.cacheSession").done)   // frame-help
+//@   invariant iter1: unbox(ds0.State.cache, "*storage.sessionCache").store == old(unbox(ds0.State.cache, "*storage.sessionCache").store) && unbox(ds0.State.cache, "*storage.sessionCache").done == old(unbox(ds0.State.cache, "*storage.sessionCache").done)   // frame-help
+//@   ensures err == nil && wfState(ds.State) && sessOpen(ds.State)                                                 // C20.delete-sub
+//@   ensures forall m string :: !subOf(m, name) ==> domHas(ds)[m] == old(domHas(ds))[m]                           // C20.delete-frame
+//@   ensures forall m string :: domHas(ds)[m] ==> old(domHas(ds))[m]                                              // C20.delete-frame
+//@   ensures dom(ds) == old(dom(ds)) && domPrice(ds) == old(domPrice(ds))                                         // C20.delete-frame
+// FINDING (confirmed by replay on the real code, /tmp/c20_replay): a sub-domain written earlier in the SAME block lives only in the
+// State's block cache; IterateRange enumerates the committed tree only, so the sub-domain is neither yielded nor deleted and
+// survives (with its old owner) the purchase / delete-sub of its parent.
+//@   claims forall m string :: subOf(m, name) ==> !domHas(ds)[m]                                                  // C20.subs-deleted
+
+// ---------------------------------------------------------------- options helpers
+
+// IsNameAllowed: lookup in a lazily built set of first-level domains; touches only the cache field of the options object
+//@ func (*Options).IsNameAllowed
+//@   requires opt != nil
+//@   modifies opt.firstLevel
+//@   invariant loop1: opt.firstLevel != nil
+
+// url.Parse (standard library): pure
+//@ assume func net/url.Parse
+//@   modifies nothing
+//@   ensures err == nil ==> result0 != nil
